@@ -49,7 +49,7 @@ def f32eq(printed, bits):
 
 
 def gen_material(rng, mode=None):
-    mode = mode or rng.choice(["none", "none4", "legacy", "legacy+dye", "dt", "dt+dye", "legacy42", "opaque", "short"])
+    mode = mode or rng.choice(["none", "none4", "legacy", "legacy+dye", "dt", "dt+dye", "legacy42", "opaque", "short", "dye-only-5x"])
     m = dict(textures=[name(rng, 3, 40) + b".tex" for _ in range(rng.choice([0, 1, 2, 4, 6]))],
              uv_sets=[(name(rng, 1, 8), rng.randrange(4)) for _ in range(rng.choice([0, 1, 2]))],
              color_sets=[(name(rng, 1, 8), rng.randrange(4)) for _ in range(rng.choice([0, 1]))],
@@ -72,6 +72,9 @@ def gen_material(rng, mode=None):
         m["heap_order"] = order
         m["heap_prefix"] = rng.choice([b"", b"", b"pad\0"])
     flags = {"none4": 0, "legacy": 0x4, "legacy+dye": 0xC, "dt": 0x4 | (0x53 << 4), "dt+dye": 0xC | (0x53 << 4), "legacy42": 0x4 | (0x42 << 4), "opaque": 0xC | (0x77 << 4)}.get(mode)
+    if mode == "dye-only-5x":
+        # a Dawntrail dye table (every dimension byte 0x50..0x5F selects it) without a colour table
+        flags = 0x8 | (rng.choice([0x50, 0x51, 0x53, 0x5A, 0x5E, 0x5F]) << 4)
     extra_bits = rng.choice([0, 0, 0x1, 0x2, 0x10000, 0xABC00000])
     if mode in ("none",):
         m["additional"] = b""
@@ -87,7 +90,7 @@ def gen_material(rng, mode=None):
         rows = [[halfword(rng) for _ in range(32)] for _ in range(32)]
     if mode == "legacy+dye":
         dye = [rng.getrandbits(16) for _ in range(16)]; m["dye_width"] = 2
-    elif mode == "dt+dye":
+    elif mode in ("dt+dye", "dye-only-5x"):
         dye = [rng.getrandbits(32) for _ in range(32)]; m["dye_width"] = 4
     m["color_rows"] = rows
     m["dye_rows"] = dye
@@ -98,7 +101,8 @@ def gen_material(rng, mode=None):
     for _ in range(rng.choice([0, 1, 3, 6] + ([257, 400] if large else [])) if nval else 0):
         cnt = rng.randint(1, min(4, nval))
         first = rng.randint(0, nval - cnt)
-        m["constants"].append((rng.getrandbits(32), first * 4, cnt * 4))
+        cid = rng.getrandbits(32) if not (m["constants"] and rng.random() < 0.15) else rng.choice(m["constants"])[0]     # the same id may be stored twice
+        m["constants"].append((cid, first * 4, cnt * 4))
     m["samplers"] = [(rng.choice(list(mtrl.USAGES)), rng.getrandbits(32), rng.randrange(256), rng.randrange(256), rng.randrange(256), rng.randrange(256))
                      for _ in range(rng.choice([0, 1, 2, 5] + ([256, 300] if large else [])))]
     m["large"] = large
@@ -145,7 +149,7 @@ def mtrl_case(ctx, rng):
                 bad["sampler"] = (s, (mtrl.USAGES[u], fl, idx))
     # colour table
     ct = d["color_table"]
-    if mode in ("none", "none4", "short"):
+    if mode in ("none", "none4", "short", "dye-only-5x"):
         if ct is not None:
             bad["color_table_unexpected"] = str(ct)[:100]
     elif mode == "opaque":
@@ -185,7 +189,7 @@ def mtrl_case(ctx, rng):
                 exp = dict(template=w >> 5, **{n: bool(w & (1 << i)) for i, n in enumerate(mtrl.LEGACY_DYE)})
                 if {k: g[k] for k in exp} != exp:
                     bad["dye_row"] = (g, hex(w))
-    elif mode == "dt+dye":
+    elif mode in ("dt+dye", "dye-only-5x"):
         if not (isinstance(dt, dict) and dt["_"] == "DawntrailColorDyeTable" and len(dt["0"]["rows"]) == 32):
             bad["dye_kind"] = str(dt)[:100]
         else:
